@@ -382,7 +382,6 @@ func (idx *IVFPQIndex) Remove(vector VectorNode) error {
 	}
 	alreadyDeleted := idx.deletedNodes.Contains(id)
 	idx.mu.RUnlock()
-	verifPoint("ivfpq:remove:window")
 
 	// Fast-fail validation outside of write lock
 	if !exists {
